@@ -529,12 +529,18 @@ def body_radius(spec):
     raise ValueError(k)
 
 
-def run_bodies(s1, s2):
-    """find_contact_surface + contact_forces on fresh bodies. JSON-able summary."""
+def run_bodies(s1, s2, s3=None):
+    """find_contact_surface + contact_forces on fresh bodies. JSON-able summary.
+    s3: a third body; the observed call is then the LAST one of the history (b1,b2), (b2,b3), (b1,b2) on the same
+    objects — body 2 has served as reference body, was re-expressed in another frame, and serves again."""
     hc, _, _, _ = impl()
     out = {}
     try:
         b1, b2 = make_body(s1), make_body(s2)
+        if s3 is not None:
+            b3 = make_body(s3)
+            hc.find_contact_surface(b1, b2)
+            hc.find_contact_surface(b2, b3)
         cs = hc.find_contact_surface(b1, b2)
         out.update(ok=True, inter=bool(cs.intersection),
                    planes=np.asarray(cs.contact_planes, dtype=float).reshape(-1, 4).tolist(),
@@ -545,6 +551,10 @@ def run_bodies(s1, s2):
                    tp1=b1.tetrahedra_points, tp2=b2.tetrahedra_points,
                    pot1=b1.tetrahedra_potentials, pot2=b2.tetrahedra_potentials)
         c1, c2 = make_body(s1), make_body(s2)
+        if s3 is not None:
+            c3 = make_body(s3)
+            hc.contact_forces(c1, c2)
+            hc.contact_forces(c2, c3)
         inter, w12, w21 = hc.contact_forces(c1, c2)
         out.update(cf_inter=bool(inter), w12=np.asarray(w12, dtype=float).tolist(),
                    w21=np.asarray(w21, dtype=float).tolist())
@@ -553,10 +563,13 @@ def run_bodies(s1, s2):
     return out
 
 
-def check_bodies(ctx, s1, s2, separated, stream):
+def check_bodies(ctx, s1, s2, separated, stream, s3=None):
     """oracle on one body pair.  `separated` = the bodies are disjoint by construction."""
-    r = run_bodies(s1, s2)
+    r = run_bodies(s1, s2, s3)
     args = {"kind": "bodies", "s1": core.jsonable(s1), "s2": core.jsonable(s2), "separated": bool(separated)}
+    if s3 is not None:
+        args["s3"] = core.jsonable(s3)
+        args["history"] = "(b1,b2), (b2,b3), (b1,b2) on the same objects; the last call is judged"
     ctx.count("search:" + stream, key=("bodies", json_key(s1), json_key(s2)))
     fn = "find_contact_surface"
     if not r.get("ok"):
@@ -1694,6 +1707,10 @@ def _search(ctx):
         stream = "BL" if k % 2 == 0 else "BG"
         s1, s2, sep, label = gen_bodies(ctx.rng, stream)
         check_bodies(ctx, s1, s2, sep, stream)
+        if k % 3 == 0:
+            # the same pair at the end of a three-body history (caches of body 2 must follow its re-expression)
+            t1, t3, _, _ = gen_bodies(ctx.rng, stream)
+            check_bodies(ctx, s1, s2, sep, stream + "-history", s3=t3)
 
 
 def replay(ctx, payload):
@@ -1725,7 +1742,7 @@ def replay(ctx, payload):
             self.failing.append((function, observed, finding))
     c = _C()
     if args.get("kind") == "bodies":
-        check_bodies(c, args["s1"], args["s2"], args.get("separated", False), "replay")
+        check_bodies(c, args["s1"], args["s2"], args.get("separated", False), "replay", s3=args.get("s3"))
         if "case" in args:
             check_pair(c, args["case"], "replay")
     elif args.get("kind") == "halfplanes":
